@@ -7,6 +7,13 @@ Three correspondences, all on the real engine (harness evalsrv):
       identifier resolved to; the expected value under hygienic semantics is known by construction of the
       family; the Coq model (expand_top + capture_kind) must classify the same programs the same way.
   (E) malformed uses: expansion returns a value or an error, never a panic / crash / hang.
+  (G) module graphs (family module_graph, second half of this file): macros imported from modules.  Two- and
+      three-level module graphs on disk, every provide-spec x require-spec form (enumerated from modules.rs on every
+      run), templates whose free identifiers are imports / helpers / macros / builtins, uses in contexts that bind
+      the same spellings; expected = definition-site meaning by construction.  Tied to the code by generated facts
+      (coq/gen/Gen_C13mod.v) and the obligations of coq/c13/PropertiesMod_C13.v: every provide form the provide
+      expansion accepts, and every local name a require binds, is in the set of names find_in_scope_macros
+      qualifies inside templates.  When an obligation breaks the whole matrix is searched for the failing input.
 Known-finding classes (decidable from the generated case description) are defined at the bottom.
 """
 import json
